@@ -73,6 +73,7 @@ def construct(I: Interp, cname, args, kwargs):
              "SourceValue": ["value", "source", "label"], "SourceHourlyValues": ["value", "source", "label"],
              "SourceObject": ["value", "source", "label"]}[cname]
     a = dict(zip(names, args)); a.update(kwargs)
+    if isinstance(a.get("value"), Opt): a["value"] = I.resolve_opt(a["value"])
     kind = {"EmptyExplainableObject": "empty", "ExplainableQuantity": "eq", "ExplainableHourlyQuantities": "ehq",
             "ExplainableObject": "eo", "SourceValue": "eq", "SourceHourlyValues": "ehq", "SourceObject": "eo"}[cname]
     if cname.startswith("Source"):
@@ -367,7 +368,7 @@ def h_shift(I, self, dur):
     elif dur.kind == "eq":
         q = qv(I, dur)
         if q.unit.dim != I.units.literal("hour").dim: raise SymRaise("DimensionalityError", "shift duration")
-        k = z3.ToInt(q.phys / 3600)
+        k = floor_i(q.phys / 3600)
     else:
         raise Unsupported("shift duration kind")
     return new_expl(I, "ehq", DF(L.vshift(d.vec, k), d.unit), None, left=self, right=dur, operator="shifted by")
